@@ -23,7 +23,7 @@ PROFILES = {
     "c04-names": Profile("c04-names", {
         "new_doc": 3, "new_sec": 12, "new_prop": 10, "create_section": 6, "create_property": 6,
         "append": 10, "insert": 8, "extend": 10, "remove": 4, "set_parent": 8, "setitem": 10,
-        "reorder": 2, "rename": 14, "clone": 8, "merge": 6, "set_link": 3, "clean": 2, "new_id": 6, "bulk_create": 2,
+        "reorder": 2, "rename": 14, "clone": 8, "merge": 6, "set_link": 3, "clean": 2, "new_id": 6, "bulk_create": 2, "reseed": 1,
     }, fault_share=0.4),
 }
 MONITORS = [mon_names]
